@@ -1347,7 +1347,12 @@ impl DhtNetworkManager {
             while batch.len() < ALPHA && !candidates.is_empty() {
                 if let Some(node) = candidates.pop_front() {
                     queued_peer_ids.remove(&node.peer_id);
-                    if !queried_nodes.contains(&node.peer_id) {
+                    // Skip peers already queried, and peers that can no longer
+                    // improve the result (we hold K answers that are all at least
+                    // as close). Everything else must be queried before we stop.
+                    if !queried_nodes.contains(&node.peer_id)
+                        && !Self::is_dominated(&best_nodes, &node, key, count)
+                    {
                         batch.push(node);
                     }
                 }
@@ -1385,7 +1390,6 @@ impl DhtNetworkManager {
 
             let results = futures::future::join_all(query_futures).await;
 
-            let mut found_new_closer = false;
             for (peer_id, result) in results {
                 queried_nodes.insert(peer_id.clone());
 
@@ -1395,6 +1399,8 @@ impl DhtNetworkManager {
                         // Add successful node to best_nodes
                         if let Some(queried_node) = batch.iter().find(|n| n.peer_id == peer_id) {
                             best_nodes.push(queried_node.clone());
+                            best_nodes.sort_by(|a, b| Self::compare_node_distance(a, b, key));
+                            best_nodes.truncate(count);
                         }
                         for mut node in nodes {
                             Self::ensure_cached_dht_key(&mut node);
@@ -1406,16 +1412,9 @@ impl DhtNetworkManager {
                             }
                             // A candidate is "dominated" only if we already have K
                             // best_nodes AND the candidate is no closer than the
-                            // farthest node in our best set. best_nodes is sorted
-                            // by distance at the end of each iteration, so .last()
-                            // is the farthest.
-                            let dominated = best_nodes.len() >= count
-                                && best_nodes.last().is_some_and(|worst| {
-                                    matches!(
-                                        Self::compare_node_distance(&node, worst, key),
-                                        std::cmp::Ordering::Equal | std::cmp::Ordering::Greater
-                                    )
-                                });
+                            // farthest node in our best set (best_nodes is kept
+                            // sorted, so .last() is the farthest).
+                            let dominated = Self::is_dominated(&best_nodes, &node, key, count);
                             if !dominated {
                                 if candidates.len() >= MAX_CANDIDATE_NODES {
                                     trace!(
@@ -1427,7 +1426,6 @@ impl DhtNetworkManager {
                                 }
                                 queued_peer_ids.insert(node.peer_id.clone());
                                 candidates.push_back(node);
-                                found_new_closer = true;
                             }
                         }
                     }
@@ -1436,6 +1434,8 @@ impl DhtNetworkManager {
                         // Add successful node to best_nodes
                         if let Some(queried_node) = batch.iter().find(|n| n.peer_id == peer_id) {
                             best_nodes.push(queried_node.clone());
+                            best_nodes.sort_by(|a, b| Self::compare_node_distance(a, b, key));
+                            best_nodes.truncate(count);
                         }
                     }
                     Err(e) => {
@@ -1449,11 +1449,6 @@ impl DhtNetworkManager {
             // Sort and truncate once per iteration instead of per result
             best_nodes.sort_by(|a, b| Self::compare_node_distance(a, b, key));
             best_nodes.truncate(count);
-
-            if !found_new_closer {
-                info!("[NETWORK] Converged after {} iterations", iteration + 1);
-                break;
-            }
 
             let snapshot: BTreeSet<String> = queued_peer_ids.iter().cloned().collect();
             if let Some(previous) = &previous_candidate_snapshot
@@ -1483,6 +1478,18 @@ impl DhtNetworkManager {
         );
 
         Ok(best_nodes)
+    }
+
+    /// True when `best_nodes` already holds `count` entries and `node` is no closer to
+    /// `key` than the farthest of them. `best_nodes` must be sorted by distance.
+    fn is_dominated(best_nodes: &[DHTNode], node: &DHTNode, key: &Key, count: usize) -> bool {
+        best_nodes.len() >= count
+            && best_nodes.last().is_some_and(|worst| {
+                matches!(
+                    Self::compare_node_distance(node, worst, key),
+                    std::cmp::Ordering::Equal | std::cmp::Ordering::Greater
+                )
+            })
     }
 
     /// Compare two nodes by their XOR distance to a target key
